@@ -315,6 +315,9 @@ func (g *gm) rejectedBatchAction() func(*rapid.T) {
 		}
 		op := g.genBatchOp()
 		op.K, op.Via = "badbatch", "store"
+		if rapid.IntRange(0, 3).Draw(t, "oversized") == 0 {
+			op.N = 1
+		}
 		if len(op.Ents) > 4 {
 			op.Ents = op.Ents[:4]
 		}
